@@ -411,6 +411,8 @@ def failure_props(f):
     if f['code'] == 401 and f.get('b') in (1, 7) and '/fc/' in f.get('sig', '') and 'C05' not in props:
         # with flow control, a writer (caller's or handler's SendMsg) still blocked after the tunnel ended: a stranded sender
         props.append('C05')
+    if f['code'] == 901 and f.get('family', '') in ('registry', 'regraw', 'stress:registry') and 'C12' not in props:
+        props.append('C12')
     if f['code'] == 401 and f.get('b') in (7, 11) and 'C14' not in props:
         # a handler-side call still pending after the tunnel ended: a goroutine of the ended tunnel stays
         props.append('C14')
@@ -804,6 +806,7 @@ class Verdict:
             self.broken.append({'kind': 'correspondence', 'what': 'M2 %s could not run' % r['family'], 'detail': r['error']})
             return
         for f in r['failures']:
+            f.setdefault('family', r['family'])
             if (codes(f['code']) if codes else (self.pid in failure_props(f))):
                 self.concrete.append({'key': 'M2:%s:%d' % (r['family'], f['code']), 'kfkey': 'code%d/%s' % (f['code'], f.get('sig', '?')), 'where': 'M2 ' + r['family'],
                                       'scenario': f['scenario'], 'code': f['code'], 'meaning': CODE_TEXT.get(f['code'], '?'),
@@ -812,8 +815,8 @@ class Verdict:
             if a['status'].startswith('race'):
                 rel = ['C15']
             else:
-              rel = ['C09', 'C15'] if a['status'].startswith('panic') else \
-                  ((['C03', 'C05', 'C15'] + (['C04'] if a.get('after_tunnel_end') else []) + (['C07'] if ('cancel' in a.get('sig', '') or r['family'] in ('stress:mix', 'stress:bounded', 'stress:nested')) else []) + (['C09', 'C06'] if ('/rawc/' in a.get('sig', '') or '/raws/' in a.get('sig', '')) else [])) if a['status'].startswith('hang')
+              rel = (['C09', 'C15'] + (['C12'] if ('registry' in r['family'] or 'regraw' in r['family']) else [])) if a['status'].startswith('panic') else \
+                  ((['C03', 'C05', 'C15'] + (['C04'] if a.get('after_tunnel_end') else []) + (['C07'] if ('cancel' in a.get('sig', '') or r['family'] in ('stress:mix', 'stress:bounded', 'stress:nested')) else []) + (['C09', 'C06'] if ('/rawc/' in a.get('sig', '') or '/raws/' in a.get('sig', '')) else []) + (['C10'] if 'shutdown' in a.get('sig', '') else [])) if a['status'].startswith('hang')
                    else (['C14'] + (['C04'] if a.get('after_tunnel_end') else [])))
             if self.pid not in rel:
                 continue
